@@ -92,6 +92,7 @@ PLAN["C11"] = {
     "tests": [
         {"name": "TestPrintReparse", "quick": (160000, 8), "thorough": (8000000, 16)},
         {"name": "TestTemplateRewrite", "quick": (96000, 8), "thorough": (4000000, 16)},
+        {"name": "TestMigrationRename", "quick": (64000, 8), "thorough": (3200000, 16)},
     ],
     "budget": {"quick": 600, "thorough": 5400},
     "rule": "expression source drawn from the full Excellent3 grammar (all operators, unary-minus chains, parentheses, dot/index lookups "
